@@ -17,6 +17,7 @@ use netconf::message::{
     ReadError, ReadXml, WriteError, WriteXml,
 };
 use quick_xml::{events::BytesStart, NsReader, Writer};
+use rand::{Rng, SeedableRng};
 use serde_json::{json, Value};
 use vh::{call_rpc, util::*, wsess::*};
 
@@ -921,9 +922,269 @@ fn c10(cases_path: &str, out: &mut dyn Write) {
     }
 }
 
+// ---------------------------------------------------------------------------------------------
+// C14: arbitrary bytes from the server
+
+fn mutate(base: &[u8], op: &str, p: usize, q: usize, seed: u64) -> Vec<u8> {
+    let n = base.len();
+    let at = |k: usize| (n * k.min(8)) / 8;
+    let mut v = base.to_vec();
+    match op {
+        "none" => {}
+        "trunc" => v.truncate(at(p)),
+        "splice" => {
+            let (a, b) = (at(p.min(q)), at(p.max(q)));
+            let slice = base[a..b].to_vec();
+            v.splice(b..b, slice);
+        }
+        "flip20" | "flip80" | "flip01" => {
+            let i = at(p).min(n.saturating_sub(1));
+            if n > 0 {
+                v[i] ^= match op { "flip20" => 0x20, "flip80" => 0x80, _ => 0x01 };
+            }
+        }
+        "badutf8" => {
+            let i = at(p);
+            v.splice(i..i, [0xff, 0xfe, 0xc3]);
+        }
+        "dupelem" => {
+            // duplicate the first child element of the root
+            let s = String::from_utf8_lossy(base).to_string();
+            if let Some(gt) = s.find('>') {
+                let rest = &s[gt + 1..];
+                if let Some(end) = rest.find("/>").map(|e| e + 2).or_else(|| rest.find("</").and_then(|c| rest[c..].find('>').map(|g| c + g + 1))) {
+                    let child = rest[..end].to_string();
+                    v = format!("{}{}{}", &s[..gt + 1], child, rest).into_bytes();
+                }
+            }
+        }
+        "hugeint" => {
+            let s = String::from_utf8_lossy(base).to_string();
+            let huge = "9".repeat(40);
+            let s = s.replace("@ID@", &huge).replace(">4711<", &format!(">{huge}<")).replace(">1</load-error-count>", &format!(">{huge}</load-error-count>"));
+            v = s.into_bytes();
+        }
+        "wrongns" => v = String::from_utf8_lossy(base).replace(BASE_NS, "urn:example:other").into_bytes(),
+        "deep" => {
+            let s = String::from_utf8_lossy(base).to_string();
+            if let Some(gt) = s.find('>') {
+                let depth = 3000;
+                v = format!("{}{}{}{}", &s[..gt + 1], "<a>".repeat(depth), "</a>".repeat(depth), &s[gt + 1..]).into_bytes();
+            }
+        }
+        "big" => {
+            let s = String::from_utf8_lossy(base).to_string();
+            if let Some(gt) = s.find('>') {
+                v = format!("{}<!--{}-->{}", &s[..gt + 1], "x".repeat(2_000_000), &s[gt + 1..]).into_bytes();
+            }
+        }
+        "leaftext" => {
+            // replace the text of the p-th text-only element by an odd value
+            let s = String::from_utf8_lossy(base).to_string();
+            let vals = ["", "[edit interfaces ge-0/0/0]", "-1", "99999999999999999999999999999999999999", " ", "\u{fc}n\u{ef}", "a/b", "0"];
+            let mut k = 0usize;
+            let mut i = 0usize;
+            let b = s.as_bytes();
+            let mut done = false;
+            let mut outs = String::new();
+            while i < b.len() {
+                if b[i] == b'>' && !done {
+                    // text node = up to next '<', non-empty, and the next tag is an end tag
+                    if let Some(lt) = s[i + 1..].find('<') {
+                        let text = &s[i + 1..i + 1 + lt];
+                        if !text.is_empty() && s[i + 1 + lt..].starts_with("</") {
+                            if k == p {
+                                outs.push('>');
+                                outs.push_str(vals[q % vals.len()]);
+                                i += 1 + lt;
+                                done = true;
+                                continue;
+                            }
+                            k += 1;
+                        }
+                    }
+                }
+                outs.push(b[i] as char);
+                i += 1;
+            }
+            v = if s.is_ascii() { outs.into_bytes() } else { s.into_bytes() };
+        }
+        "empty" => v.clear(),
+        "random" => {
+            let mut r = rand::rngs::StdRng::seed_from_u64(seed);
+            let len = r.gen_range(0..300);
+            v = (0..len).map(|_| if r.gen_range(0..4) == 0 { b"<>/\"= ]&"[r.gen_range(0..8)] } else { r.gen::<u8>() }).collect();
+        }
+        _ => {}
+    }
+    // remove accidental delimiters inside, then terminate the message
+    let mut out = Vec::new();
+    let mut i = 0;
+    while i < v.len() {
+        if v[i..].starts_with(EOM.as_bytes()) {
+            i += EOM.len();
+        } else {
+            out.push(v[i]);
+            i += 1;
+        }
+    }
+    out.extend_from_slice(EOM.as_bytes());
+    out
+}
+
+/// the message-id a lenient reader would attribute the (possibly broken) reply to
+fn lenient_id(msg: &[u8]) -> Option<u64> {
+    let s = String::from_utf8_lossy(msg);
+    let k = s.find("message-id=")?;
+    let rest = &s[k + 11..];
+    let q = rest.chars().next()?;
+    if q != '"' && q != '\'' {
+        return None;
+    }
+    let end = rest[1..].find(q)?;
+    rest[1..1 + end].trim().parse().ok()
+}
+
+/// Can the reply be attributed from its header alone?  The whole message is valid UTF-8 and starts
+/// (after an XML declaration / comments) with a well-formed start tag of an element named rpc-reply
+/// in the NETCONF base namespace that carries a numeric message-id.  This is what the library's own
+/// first parse phase needs; whatever follows the start tag does not matter for attribution.
+fn strict_header_id(msg: &[u8]) -> Option<u64> {
+    let s = std::str::from_utf8(msg).ok()?;
+    let mut rest = s.trim_start();
+    loop {
+        if rest.starts_with("<?") {
+            rest = rest[rest.find("?>")? + 2..].trim_start();
+        } else if rest.starts_with("<!--") {
+            rest = rest[rest.find("-->")? + 3..].trim_start();
+        } else {
+            break;
+        }
+    }
+    let gt = rest.find('>')?;
+    let tag = &rest[..=gt];
+    // let the strict parser read the start tag by closing it artificially
+    let closed = if tag.ends_with("/>") { tag.to_string() } else {
+        let name_end = tag[1..].find(|c: char| c.is_whitespace() || c == '>' || c == '/')? + 1;
+        format!("{}</{}>", tag, &tag[1..name_end])
+    };
+    let e = xmlgen::parse_document(&closed).ok()?;
+    let (prefix, local) = match e.name.split_once(':') {
+        Some((p, l)) => (Some(p.to_string()), l.to_string()),
+        None => (None, e.name.clone()),
+    };
+    if local != "rpc-reply" {
+        return None;
+    }
+    let ns_attr = match &prefix { Some(p) => format!("xmlns:{p}"), None => "xmlns".to_string() };
+    if e.attr(&ns_attr) != Some(BASE_NS) {
+        return None;
+    }
+    e.attr("message-id")?.parse().ok()
+}
+
+fn c14(cases_path: &str, out: &mut dyn Write) {
+    use rand::SeedableRng as _;
+    let v: Value = serde_json::from_str(&std::fs::read_to_string(cases_path).unwrap()).unwrap();
+    let tmpls = templates();
+    for (k, c) in v["cases"].as_array().unwrap().iter().enumerate() {
+        let tname = c["tmpl"].as_str().unwrap_or("");
+        let Some((_, op, tree)) = tmpls.iter().find(|(n, _, _)| *n == tname) else { continue };
+        let base = xmlgen::render(tree, &Style::default());
+        let base = base.strip_suffix(EOM).unwrap_or(&base).replace("@ID@", if c["op"] == "hugeint" { "@ID@" } else { "2" });
+        let g = mutate(base.as_bytes(), c["op"].as_str().unwrap_or("none"), c["p"].as_u64().unwrap_or(0) as usize,
+                       c["q"].as_u64().unwrap_or(0) as usize, c["seed"].as_u64().unwrap_or(k as u64));
+        let gid = strict_header_id(&g);
+        let _ = lenient_id(&g);
+        let mut ev = json!({"ev": "c14", "case": k, "c": c, "gid": gid.map(|x| x as i64).unwrap_or(-1), "glen": g.len()});
+        let op = *op;
+        let r = std::panic::catch_unwind(std::panic::AssertUnwindSafe(|| {
+            if op == "hello" {
+                let (t, ctl) = vh::memtransport::mem_transport();
+                ctl.push(g.clone());
+                let mut est: BoxFut<Result<netconf::Session<_>, netconf::Error>> = Box::pin(netconf::Session::verif_with_transport(t));
+                return match drive(&mut est, 8) {
+                    Driven::Ready(Ok(_)) => json!({"hello": "ok"}),
+                    Driven::Ready(Err(e)) => json!({"hello": "err", "err": err_class(&e)}),
+                    Driven::Hung => json!({"hello": "hang"}),
+                };
+            }
+            let mut ws = WSess::with_caps(ALL_CAPS);
+            // three requests outstanding: 1 and 3 are <lock>, 2 is the operation whose reply is garbage
+            let mut futs: Vec<Option<BoxFut<Result<(), netconf::Error>>>> = Vec::new();
+            for i in 1..=3 {
+                macro_rules! send {
+                    ($ty:ty, $build:expr) => {{
+                        let mut outer: LBoxFut<'_, _> = Box::pin(ws.session.rpc::<$ty, _>($build));
+                        let r = match drive(&mut outer, 8) { Driven::Ready(r) => r.ok(), Driven::Hung => None };
+                        drop(outer);
+                        r.map(|f| -> BoxFut<Result<(), netconf::Error>> { Box::pin(async move { f.await.map(|_| ()) }) })
+                    }};
+                }
+                let f = if i != 2 {
+                    send!(Lock, |b| b.target(Datastore::Running)?.finish())
+                } else {
+                    match op {
+                        "get" => send!(Get, |b| b.filter(None).finish()),
+                        "open-configuration" => send!(OpenConfiguration, |b| b.ephemeral(Some("inst")).finish()),
+                        "load-configuration" => send!(LoadConfiguration<_>, |b| b.source(Config::new(Raw("<configuration/>".into()), Xml, Merge)).finish()),
+                        _ => send!(Lock, |b| b.target(Datastore::Candidate)?.finish()),
+                    }
+                };
+                futs.push(f);
+            }
+            ws.ctl.push(g.clone());
+            ws.ctl.push(reply_msg(1, "<ok/>"));
+            ws.ctl.push(reply_msg(3, "<ok/>"));
+            let mut res: Vec<String> = vec!["pending".into(); 3];
+            let mut round = |futs: &mut Vec<Option<BoxFut<Result<(), netconf::Error>>>>, res: &mut Vec<String>| {
+                for i in 0..3 {
+                    if res[i] != "pending" {
+                        continue;
+                    }
+                    if let Some(f) = futs[i].as_mut() {
+                        match drive(f, 12) {
+                            Driven::Ready(Ok(())) => res[i] = "ok".into(),
+                            Driven::Ready(Err(e)) => res[i] = format!("err:{}", err_class(&e)),
+                            Driven::Hung => {}
+                        }
+                    } else {
+                        res[i] = "notsent".into();
+                    }
+                }
+            };
+            round(&mut futs, &mut res);
+            let mut resupplied = false;
+            if res.iter().any(|r| r == "pending") {
+                // the garbage could not be attributed (or was swallowed): the server now answers request 2 properly
+                let body = match op { "get" => "<data>x</data>", "open-configuration" => "", "load-configuration" => "<load-configuration-results><ok/></load-configuration-results>", _ => "<ok/>" };
+                ws.ctl.push(reply_msg(2, body));
+                resupplied = true;
+            }
+            // the receive lock is handed over in FIFO order, so a future may need another poll
+            // after the one in front of it has finished
+            for _ in 0..4 {
+                if res.iter().any(|r| r == "pending") {
+                    round(&mut futs, &mut res);
+                }
+            }
+            json!({"res": res, "resupplied": resupplied})
+        }));
+        match r {
+            Ok(o) => {
+                for (key, val) in o.as_object().unwrap() {
+                    ev[key.as_str()] = val.clone();
+                }
+            }
+            Err(_) => ev["panic"] = json!(true),
+        }
+        writeln!(out, "{ev}").unwrap();
+    }
+}
+
 fn main() {
     let args: Vec<String> = std::env::args().collect();
-    std::panic::set_hook(Box::new(|_| {}));
+    if std::env::var("VERIF_PANIC_TRACE").is_err() { std::panic::set_hook(Box::new(|_| {})); }
     let stdout = std::io::stdout();
     let mut out = std::io::BufWriter::new(stdout.lock());
     match args.get(1).map(String::as_str) {
@@ -932,6 +1193,7 @@ fn main() {
         Some("c12") => c12(&args[2], &mut out),
         Some("c13") => c13(&args[2], &mut out),
         Some("c10") => c10(&args[2], &mut out),
+        Some("c14") => c14(&args[2], &mut out),
         _ => {
             eprintln!("usage: wire c08 <cases.json> [quick] | wire c09 <contents.json> <capsets.json> | wire c12 <cases.json>");
             std::process::exit(2);
